@@ -12,3 +12,6 @@ python3 gen/gen_reg.py p6b 0 harness/regs/p6b/src/gen.rs --queries 12 --entries 
 python3 gen/gen_reg.py p6c 0 harness/regs/p6c/src/gen.rs --queries 12 --entries 0
 python3 gen/gen_reg.py p10 0 harness/regs/p10/src/gen.rs --queries 12 --entries 0
 python3 gen/gen_reg.py p1 0 harness/regs/p1/src/gen.rs --queries 4 --entries 0
+# committed default of the seed-derived (thorough) pools; ./verif <id> thorough regenerates them from VERIF_SEED
+python3 gen/gen_reg.py t6 0 harness/regs/t6/src/gen.rs --queries 70 --entries 40
+python3 gen/gen_reg.py t10 0 harness/regs/t10/src/gen.rs --queries 50 --entries 30
